@@ -488,6 +488,16 @@ fn main() {
     let n_values: usize = elems.iter().map(|c| c.len()).sum();
     ctx.set("i1_intervals", json!(n));
     ctx.set("i1_values_with_hints", json!(n_values));
+    // a few cases for the evidence file, picked sequentially (independent of thread scheduling)
+    for k in 0..=1000u64 {
+        let (a, b) = (&elems[((k * 37) % n) as usize], &elems[((k * 101) % n) as usize]);
+        let (a, b) = (&a[k as usize % a.len()], &b[(k / 3) as usize % b.len()]);
+        ctx.sample(|| match k % 4 {
+            0 | 1 => serde_json::to_value(Case::Bin { op: format!("{:?}", ALL_BINOPS[(k % 34) as usize]), a: a.iv.clone(), b: b.iv.clone() }).unwrap(),
+            2 => serde_json::to_value(Case::Cast { op: format!("{:?}", ALL_CASTS[(k % 7) as usize]), a: a.iv.clone(), to: [1u32, 2, 4, 8, 16][(k % 5) as usize] }).unwrap(),
+            _ => serde_json::to_value(Case::Un { op: format!("{:?}", ALL_UNOPS[(k % 10) as usize]), a: b.iv.clone() }).unwrap(),
+        });
+    }
     {
         let elems = &elems;
         par_fold(
@@ -514,7 +524,6 @@ fn main() {
                                 }
                             }
                             acc.states += 1;
-                            ctx.sample(|| serde_json::to_value(Case::Bin { op: format!("{:?}", ALL_BINOPS[opi]), a: ea.iv.clone(), b: eb.iv.clone() }).unwrap());
                             eval_bin(
                                 ctx,
                                 acc,
@@ -714,7 +723,6 @@ fn main() {
                         continue;
                     }
                     acc.states += 1;
-                    ctx.sample(|| serde_json::to_value(Case::Bin { op: format!("{op:?}"), a: ivs[i].clone(), b: ivs[j].clone() }).unwrap());
                     eval_bin(ctx, acc, tabs, opi, &a, &b, &mut None, false);
                 }
             },
